@@ -415,5 +415,6 @@ pub fn run(e: &'static Engine) {
     }
     e.par(jobs);
     e.put("cells_total", json!(1280));
+    super::common::extreme_parts(e, check);
     e.set_exhaustive(true, "the 4 x 8 x 40 forced (level, mask, version) cells; payloads and the forced/automatic combinations are sampled");
 }
